@@ -10,6 +10,7 @@ use crate::refdec;
 use crate::run::{CaseResult, Ctx, Env, Input, RunResult, Sub, Violation};
 use crate::sio::Step;
 use crate::tape::Tape;
+use crate::ensure;
 
 /// compares a scheduled run with the one-shot run on the same bytes
 fn compare<F: Family>(data: &[u8], one: &PollRun<F>, run: &PollRun<F>, what: &str) -> Result<(), String> {
@@ -438,6 +439,37 @@ fn case_header_splits<F: Family>(input: &Input, ctx: &mut Ctx) -> CaseResult {
     Ok(())
 }
 
+/// A transport that is slow *inside* `poll_read` (it decrypts, decompresses, or copies from a slow device) but never
+/// answers Pending: however long the reads take, the decoder finishes in the one poll and never reports not-ready
+/// itself. The stream is a PUBLISH of 40..440 body bytes, optionally followed by another packet, delivered one or two
+/// bytes per read with every read taking 100 microseconds (a few dozen milliseconds per poll).
+fn case_slow<F: Family>(input: &Input, ctx: &mut Ctx) -> CaseResult {
+    let mut t = Tape::new(input.tape());
+    let rl = 40 + t.pick(400);
+    let p = c01::sized_publish::<F>(rl);
+    let mut data = F::encode(&p).map(|b| b.as_ref().to_vec()).unwrap_or_default();
+    if t.flag() {
+        data.extend_from_slice(&[0xC0, 0x00]);
+    }
+    let one = fam::dec_poll_scripted::<F>(&data, &[], 0, None, true);
+    let k = 1 + t.pick(2);
+    let steps: Vec<Step> = (0..data.len() / k + 2).map(|_| Step::Chunk(k)).collect();
+    crate::sio::SLOW_READ_US.with(|c| c.set(100));
+    let run = fam::dec_poll_scripted::<F>(&data, &steps, 0, None, true);
+    crate::sio::SLOW_READ_US.with(|c| c.set(0));
+    let what = format!("{} PUBLISH of {} body bytes delivered {} byte(s) per read, every read taking 100 microseconds inside poll_read, no Pending", F::FAM.name(), rl, k);
+    compare::<F>(&data, &one, &run, &what).map_err(Violation::new)?;
+    ensure!(run.polls == 1, "{}: the decoder needed {} polls although the transport was ready every time", what, run.polls);
+    ctx.label("slow-reads-without-pending");
+    ctx.count_distinct(1);
+    if rl % 16 == 0 {
+        ctx.sample(|| format!("{}: one poll, {} reads", what, run.log.len()));
+    }
+    Ok(())
+}
+
+pub const SUB_SLOW3: Sub = Sub { name: "c05.slow-transport.v3", f: case_slow::<V3> };
+pub const SUB_SLOW5: Sub = Sub { name: "c05.slow-transport.v5", f: case_slow::<V5> };
 pub const SUB_H3: Sub = Sub { name: "c05.header-splits.v3", f: case_header_splits::<V3> };
 pub const SUB_H5: Sub = Sub { name: "c05.header-splits.v5", f: case_header_splits::<V5> };
 pub const SUB_C3: Sub = Sub { name: "c05.compositions.v3", f: case_compositions::<V3> };
@@ -448,7 +480,7 @@ pub const SUB_R3: Sub = Sub { name: "c05.random.v3", f: case_random::<V3> };
 pub const SUB_R5: Sub = Sub { name: "c05.random.v5", f: case_random::<V5> };
 
 pub fn subs() -> Vec<Sub> {
-    vec![SUB_C3, SUB_C5, SUB_S3, SUB_S5, SUB_R3, SUB_R5, SUB_H3, SUB_H5]
+    vec![SUB_C3, SUB_C5, SUB_S3, SUB_S5, SUB_R3, SUB_R5, SUB_H3, SUB_H5, SUB_SLOW3, SUB_SLOW5]
 }
 
 fn blocks<F: Family>(max_len: usize) -> (Vec<Input>, usize, usize) {
@@ -502,6 +534,11 @@ pub fn run(env: &mut Env) -> RunResult {
     let h2 = hs.clone();
     env.run_enum(SUB_H3, k, false, move |i| h2[i as usize].clone())?;
     env.run_enum(SUB_H5, k, false, move |i| hs[i as usize].clone())?;
+    let n = env.tier.sel(48, 480);
+    env.run_tapes(SUB_SLOW3, n, 8)?;
+    env.run_tapes(SUB_SLOW5, n, 8)?;
+    env.require("c05.slow-transport.v3", "slow-reads-without-pending");
+    env.require("c05.slow-transport.v5", "slow-reads-without-pending");
     for s in ["c05.header-splits.v3", "c05.header-splits.v5"] {
         env.require(s, "header-width:2");
         env.require(s, "header-width:3");
